@@ -123,23 +123,81 @@ type mem struct {
 	st *state
 }
 
-func (c *ctx) heapOf(st *state, sort string) *T {
-	if h, ok := st.heaps[sort]; ok {
+func heapKey(t types.Type) string {
+	if b, ok := t.(*types.Basic); ok {
+		return types.Typ[b.Kind()].Name() // byte == uint8, rune == int32
+	}
+	return sanitize(typeKey(t))
+}
+
+// heap0 is the initial object heap of pointee type t
+func (c *ctx) heap0(t types.Type) *T {
+	k := heapKey(t)
+	name := "H0_" + k
+	if _, ok := c.d.consts[name]; !ok {
+		h := c.d.constant(name, arraySort("Int", c.sortOf(t)))
+		qcounter++
+		r := atom(fmt.Sprintf("r!%d", qcounter), "Int")
+		f := c.valueWF(mkSelect(h, r), t)
+		if !isTrue(f) {
+			c.facts = append(c.facts, symFact{name, app(fmt.Sprintf("forall ((%s Int))", r.op), "Bool", f)})
+		}
+	}
+	return atom(name, arraySort("Int", c.sortOf(t)))
+}
+
+// arr0 is the initial array heap of element type t
+func (c *ctx) arr0(t types.Type) *T {
+	k := heapKey(t)
+	name := "A0_" + k
+	srt := arraySort("Int", arraySort(c.intSort(), c.sortOf(t)))
+	if _, ok := c.d.consts[name]; !ok {
+		h := c.d.constant(name, srt)
+		qcounter++
+		r := atom(fmt.Sprintf("r!%d", qcounter), "Int")
+		i := atom(fmt.Sprintf("i!%d", qcounter), c.intSort())
+		f := c.valueWF(mkSelect(mkSelect(h, r), i), t)
+		if !isTrue(f) {
+			c.facts = append(c.facts, symFact{name, app(fmt.Sprintf("forall ((%s Int) (%s %s))", r.op, i.op, i.sort), "Bool", f)})
+		}
+	}
+	return atom(name, srt)
+}
+
+// freshArr is a fresh (havocked) inner array of element type t with value well-formedness
+func (c *ctx) freshArr(prefix string, t types.Type) *T {
+	a := c.d.fresh(prefix, arraySort(c.intSort(), c.sortOf(t)))
+	qcounter++
+	i := atom(fmt.Sprintf("i!%d", qcounter), c.intSort())
+	f := c.valueWF(mkSelect(a, i), t)
+	if !isTrue(f) {
+		c.facts = append(c.facts, symFact{a.op, app(fmt.Sprintf("forall ((%s %s))", i.op, i.sort), "Bool", f)})
+	}
+	return a
+}
+
+func (c *ctx) heapOf(st *state, t types.Type) *T {
+	k := heapKey(t)
+	if h, ok := st.heaps[k]; ok {
 		return h
 	}
-	h := c.d.constant("H0_"+sanitize(sort), arraySort("Int", sort))
-	st.heaps[sort] = h
+	h := c.heap0(t)
+	st.heaps[k] = h
 	return h
 }
 
-func (c *ctx) arrOf(st *state, elemSort string) *T {
-	if h, ok := st.arrs[elemSort]; ok {
+func (c *ctx) arrOf(st *state, t types.Type) *T {
+	k := heapKey(t)
+	if h, ok := st.arrs[k]; ok {
 		return h
 	}
-	h := c.d.constant("A0_"+sanitize(elemSort), arraySort("Int", arraySort(c.intSort(), elemSort)))
-	st.arrs[elemSort] = h
+	h := c.arr0(t)
+	st.arrs[k] = h
 	return h
 }
+
+func (c *ctx) setHeap(st *state, t types.Type, h *T) { st.heaps[heapKey(t)] = c.name(st, "H_"+heapKey(t), h) }
+func (c *ctx) setArr(st *state, t types.Type, h *T)  { st.arrs[heapKey(t)] = c.name(st, "A_"+heapKey(t), h) }
 
 // name introduces a named constant for a big term to keep queries linear in size.
 func (c *ctx) name(st *state, prefix string, t *T) *T {
@@ -171,9 +229,9 @@ func (c *ctx) loadRoot(st *state, p *Ptr) *T {
 		}
 		return v.t
 	case pkHeap:
-		return mkSelect(c.heapOf(st, c.sortOf(p.base)), p.ref)
+		return mkSelect(c.heapOf(st, p.base), p.ref)
 	case pkElem:
-		return mkSelect(mkSelect(c.arrOf(st, c.sortOf(p.base)), p.ref), p.idx)
+		return mkSelect(mkSelect(c.arrOf(st, p.base), p.ref), p.idx)
 	}
 	panic("bad ptr kind")
 }
@@ -234,18 +292,16 @@ func (c *ctx) store(st *state, p *Ptr, v Val) {
 		nt := c.updatePath(root, p.base, p.path, vt)
 		st.cells[p.cell] = Val{t: nt, typ: p.base}
 	case pkHeap:
-		s := c.sortOf(p.base)
-		h := c.heapOf(st, s)
+		h := c.heapOf(st, p.base)
 		root := mkSelect(h, p.ref)
 		nt := c.updatePath(root, p.base, p.path, vt)
-		st.heaps[s] = c.name(st, "H_"+s, mkStore(h, p.ref, nt))
+		c.setHeap(st, p.base, mkStore(h, p.ref, nt))
 	case pkElem:
-		s := c.sortOf(p.base)
-		a := c.arrOf(st, s)
+		a := c.arrOf(st, p.base)
 		arr := mkSelect(a, p.ref)
 		root := mkSelect(arr, p.idx)
 		nt := c.updatePath(root, p.base, p.path, vt)
-		st.arrs[s] = c.name(st, "A_"+s, mkStore(a, p.ref, mkStore(arr, p.idx, nt)))
+		c.setArr(st, p.base, mkStore(a, p.ref, mkStore(arr, p.idx, nt)))
 	}
 }
 
